@@ -198,6 +198,11 @@ func (fdb *fsDb) pathFor(ctx context.Context, lk *db.LookupKey) (fsLookupKey, er
 // create a key safe for the filesystem, matching legacy resource.FsResource name.
 func (fdb *fsDb) altPathFor(ctx context.Context, lk *db.LookupKey) (fsLookupKey, error) {
 	var flk fsLookupKey
+	if fdb.Prefix() > db.DATATYPE_STATICLOAD {
+		// legacy resource.FsResource names exist for the resource types only; for state and
+		// user data the name without its type character is some other entry's file
+		return flk, nil
+	}
 	fb := string(lk.Default[1:])
 	if fdb.Prefix() == db.DATATYPE_BIN {
 		fb += ".bin"
